@@ -536,6 +536,87 @@ def rule10(chk, db, cfgname):
     chk.count('c13.10.orientation_swaps', n)
 
 
+def rule11(chk, db, cfgname):
+    chk.rule('C13.11', 'DisjointSets::unite: the expected value of every linking CAS is assembled from the (rank, id) '
+             'pair observed by find - it is never re-read from mData, which would make the CAS succeed on a node that '
+             'has meanwhile stopped being a root (a concurrent union is then overwritten)')
+    n = 0
+    for f in db.functions.values():
+        if not f.get('blocks') or f['name'] not in ('manifold::DisjointSets::unite', 'DisjointSets::unite'):
+            continue
+        for b in f['blocks']:
+            for e in b['ev']:
+                if e.get('k') == 'call' and T.short(e.get('fn', '')).startswith('compare_exchange') and e.get('args'):
+                    exp = T.strip_copy(e['args'][0])
+                    if exp.get('k') != 'var':
+                        continue
+                    n += 1
+                    defs = []
+                    for bb in f['blocks']:
+                        for ee in bb['ev']:
+                            if ee.get('k') == 'decl':
+                                defs += [v['init'] for v in ee['vars'] if v['n'] == exp['n'] and v.get('init') is not None]
+                            if ee.get('k') == 'bin' and ee.get('op') == '=' and T.strip(ee['l']).get('k') == 'var' and \
+                                    T.strip(ee['l'])['n'] == exp['n']:
+                                defs.append(ee['r'])
+                    reread = [T.pstr(d)[:40] for d in defs if any(
+                        isinstance(y, dict) and ((y.get('k') == 'mem' and y.get('n') == 'mData') or
+                                                 (y.get('k') == 'call' and T.short(y.get('fn', '')) == 'load'))
+                        for y in T.walk(d))]
+                    ok = bool(defs) and not reread
+                    chk.obligation(ok, {'function': f['name'], 'line': e.get('ln'), 'expected operand': exp['n'],
+                                        'definitions': [T.pstr(d)[:40] for d in defs], 're-read from mData': reread})
+                    if not ok:
+                        chk.violation('C13.11', f, 'CAS expected value re-read from mData',
+                                      'the expected operand %s of the CAS is loaded from mData (%s) instead of being '
+                                      'built from the rank and id that find() returned: the CAS no longer checks that '
+                                      'the node is still a root with that rank' % (exp['n'], reread), line=e.get('ln'),
+                                      cfg=cfgname)
+    chk.count('c13.11.cas_sites', n)
+
+
+def rule12(chk, db, cfgname):
+    chk.rule('C13.12', 'HashTableD::Insert counts an entry only after it has claimed an open slot: used_ is advanced by a '
+             'fetch_add that is control-dependent on the CAS having found kOpen, and is never decremented (a transient '
+             'over-count makes a concurrent inserter see Full() and drop its key)')
+    n = 0
+    for f in db.functions.values():
+        if not f.get('blocks') or T.short(f['name']) != 'Insert' or 'HashTableD' not in f['name']:
+            continue
+        g = C.Cfg(f)
+        for b in f['blocks']:
+            for e in b['ev']:
+                if e.get('k') == 'call' and e.get('recv') is not None and T.strip(e['recv']).get('k') == 'mem' and \
+                        T.strip(e['recv']).get('n') == 'used_' and T.short(e.get('fn', '')) in ('fetch_add', 'fetch_sub',
+                                                                                                 'store', 'operator++',
+                                                                                                 'operator--'):
+                    n += 1
+                    m = T.short(e['fn'])
+                    ok = m == 'fetch_add'
+                    why = m
+                    if ok:
+                        seen, work, dep = set(), [b['id']], False
+                        while work:
+                            y = work.pop()
+                            for d, k in g.control_deps(y):
+                                if (d, k) in seen:
+                                    continue
+                                seen.add((d, k))
+                                work.append(d)
+                                cond, _ = C.branch_cond(g.blocks[d])
+                                if cond is not None and k == 0 and 'kOpen' in T.pstr(cond) and '==' in T.pstr(cond):
+                                    dep = True
+                        ok = dep
+                        why = 'fetch_add under found == kOpen' if dep else 'fetch_add not controlled by the CAS result'
+                    chk.obligation(ok, {'function': f['key'].split(' :: ')[0][:70], 'line': e.get('ln'), 'used_': why})
+                    if not ok:
+                        chk.violation('C13.12', f, 'used_ %s' % why,
+                                      'the entry counter is changed by %s: the count is not the number of claimed slots '
+                                      'at every instant, so Full() can be observed true while a slot is still free' % why,
+                                      line=e.get('ln'), cfg=cfgname)
+    chk.count('c13.12.counter_updates', n)
+
+
 def main(chk, tier):
     import db as D
     import c06
@@ -556,6 +637,8 @@ def main(chk, tier):
             rule8(chk, db, cfgname)
             rule9(chk, db, cfgname)
         rule10(chk, db, cfgname)
+        rule11(chk, db, cfgname)
+        rule12(chk, db, cfgname)
         rule3(chk, db, cfgname, tab)
         rule5(chk, db, cfgname, tab)
     chk.floor('c13.1.functional_tbb_calls', 3)
@@ -567,6 +650,8 @@ def main(chk, tier):
     chk.floor('c13.8.range_bodies', 6)
     chk.floor('c13.9.run_extensions', 2)
     chk.floor('c13.10.orientation_swaps', 1)
+    chk.floor('c13.11.cas_sites', 2)
+    chk.floor('c13.12.counter_updates', 1)
     return chk.finish(
         'Protocol-conformance lints over src/parallel.h in the TBB configuration (which the pinned build never '
         'compiles) and the sequential one: identity arguments of the functional TBB reduce/scan calls, split/join/'
